@@ -251,9 +251,11 @@ def main():
              ("dual", lambda: c10_dual.run(out, grids, rng, thorough)),
              ("bc", lambda: c10_mass.bc_conformity(out, grids, rng, thorough)),
              ("bcmodel", lambda: c10_bc.dump(out, grids if thorough else grids[:5], rng, thorough, c10_mass.bc_optsets)),
+             ("bcborder", lambda: c10_bc.border_search(out, grids, rng, thorough, c10_mass.bc_optsets)),
              ("mass", lambda: c10_mass.mixed_mass(out, grids, rng, thorough)),
              ("mass_scalar", lambda: c10_mass.mixed_mass(out, grids, rng, thorough, "scalar")),
-             ("mass_vector", lambda: c10_mass.mixed_mass(out, grids, rng, thorough, "vector"))]
+             ("mass_vector", lambda: c10_mass.mixed_mass(out, grids, rng, thorough, "vector")),
+             ("mass_border", lambda: c10_mass.mass_border(out, rng, thorough))]
     for nm, fn in steps:
         if nm in parts:
             t = time.time()
